@@ -20,6 +20,7 @@ class PickleStream(Foreign):
         self.cut = cut            # None | exception name raised when reading past the last complete item (a file cut inside the next item)
         self.closed = False
         self.raw = []             # anything written that is not a pickle (handle.write)
+        self.cut_item = None      # the item the cut falls in, when there is one
 
     def sl_method(self, interp, name, args, kw, node):
         if name == 'close':
@@ -36,6 +37,58 @@ class PickleStream(Foreign):
             return None
         if name in ('read', 'readline', 'tell', 'seek'):
             return Unk('raw %s on the results file' % name, node)
+        if name == 'raw_write_array' and len(args) == 1 and isinstance(args[0], Arr) and args[0].mask is None:
+            self.items.append(('RAWARR', args[0]))          # x.tofile(handle): the values of x, in row-major order, with nothing around them
+            return None
+        if name == 'raw_read_array':
+            # np.fromfile(handle, ...): the values that come next, flat; where the file ends first, those that are there (no error)
+            if self.pos < len(self.items):
+                it = self.items[self.pos]
+                if isinstance(it, tuple) and it and it[0] == 'RAWARR':
+                    self.pos += 1
+                    want = interp._as_arr(args[0]) if args and args[0] is not None else None
+                    have = Poly_one()
+                    for d in it[1].dims:
+                        have = have * (num(interp.axis_len[d]) if d in interp.axis_len else alg.count(d))
+                    if isinstance(want, Arr) and not (want.poly == have):
+                        return Unk('np.fromfile asked for %s values where the block written holds %s' % (alg.show(want.poly, 60), alg.show(have, 60)), node)
+                    return _RawFlat(it[1])
+                return Unk('np.fromfile where the file holds a pickle', node)
+            self.cut_raised = True          # whatever was left of the block is consumed
+            ref = self.cut_item[1] if isinstance(self.cut_item, tuple) and self.cut_item and self.cut_item[0] == 'RAWARR' else None
+            dims = ('cut~',) + (tuple(ref.dims[1:]) if ref is not None else ())
+            return _RawFlat(symarr('values_before_the_cut', dims, unit=ref.unit if ref is not None else None), short=True)
+        return NotImplemented
+
+
+def Poly_one():
+    return alg.Poly.const(1)
+
+
+class _RawFlat(Foreign):
+    """what np.fromfile returns for a block written by x.tofile(): the values of x as a flat array; reshape(-1, n) with n the extent of x's last
+    axis gives x back (for a block cut short: as many whole rows as there are, when the cut falls on a row boundary)"""
+    def __init__(self, arr, short=False):
+        self.arr, self.short = arr, short
+
+    def as_value(self):
+        return self.arr if self.arr.ndim == 1 else Unk('flat view of a %d-d block' % self.arr.ndim)
+
+    def sl_method(self, interp, name, args, kw, node):
+        if name == 'reshape':
+            sh = list(args[0]) if len(args) == 1 and isinstance(args[0], (tuple, list)) else list(args)
+            if len(sh) != self.arr.ndim:
+                return Unk('block of %d axes reshaped to %d' % (self.arr.ndim, len(sh)), node)
+            for k, (v, d) in enumerate(zip(sh, self.arr.dims)):
+                a = interp._as_arr(v)
+                if k == 0 and isinstance(a, Arr) and a.poly == num(-1):
+                    continue
+                ext = num(interp.axis_len[d]) if d in interp.axis_len else alg.count(d)
+                if not (isinstance(a, Arr) and a.poly == ext):
+                    return Unk('block reshaped to another extent along %r' % (d,), node)
+            return self.arr
+        if name in ('copy', 'astype'):
+            return self
         return NotImplemented
 
 
@@ -133,10 +186,13 @@ def make_info(repo, k, meta):
                                                   'model_name': symarr('name%d' % k, (R,)), 'model_fluxes': symarr('mf%d' % k, (R, W), unit=num(1)), 'meta': meta})
 
 
-def open_file(repo, stream, mode):
-    """FitInfoFile('FILE', mode) interpreted; returns (interp, object or Unk)"""
+def open_file(repo, stream, mode, nlen=None):
+    """FitInfoFile('FILE', mode) interpreted; returns (interp, object or Unk).  nlen: the number of fits every record holds (None: any number)"""
     ci = repo.cls('fit_info', 'FitInfoFile')
     I = Interp(repo, RecHooks(stream))
+    I.axis_len[W] = 1          # make_meta: one filter
+    if nlen is not None:
+        I.axis_len[R] = nlen
     o = Obj(ci, {})
     o.strict = True
     r = I.call(repo.find_member(ci, '__init__')[1], ['FILE', mode], selfv=o)
@@ -145,28 +201,32 @@ def open_file(repo, stream, mode):
     return I, o
 
 
-def write_records(repo, infos):
-    """(stream, errors): the stream produced by FitInfoFile('FILE','w'), write(info)..., close()"""
+def write_records(repo, infos, nlen=None):
+    """(stream, errors): the stream produced by FitInfoFile('FILE','w'), write(info)..., close(); stream.marks[k] is the number of items in the file
+    when the k-th write() returned (record k is completely written once the file holds that many items)"""
     ci = repo.cls('fit_info', 'FitInfoFile')
     st = PickleStream()
-    I, f = open_file(repo, st, 'w')
+    st.marks = []
+    I, f = open_file(repo, st, 'w', nlen)
     if isinstance(f, Unk):
         return st, I, f
     for info in infos:
         r = I.call(repo.find_member(ci, 'write')[1], [info], selfv=f)
         if isinstance(r, Unk):
             return st, I, r
+        st.marks.append(len(st.items))
     I.call(repo.find_member(ci, 'close')[1], [], selfv=f)
     if I.lost:
         return st, I, Unk('a call of the writer was not modelled (%s): what the stream holds is not all that was written' % (str(I.lost[0])[:100],))
     return st, I, None
 
 
-def read_records(repo, items, cut=None):
+def read_records(repo, items, cut=None, nlen=None, cut_item=None):
     """(records yielded or Unk, interp, file object): FitInfoFile('FILE','r') iterated to the end on the given stream"""
     ci = repo.cls('fit_info', 'FitInfoFile')
     st = PickleStream(items, cut)
-    I, f = open_file(repo, st, 'r')
+    st.cut_item = cut_item
+    I, f = open_file(repo, st, 'r', nlen)
     if isinstance(f, Unk):
         return f, I, None
     out = I.iterate_obj(f, None)
@@ -191,19 +251,94 @@ def same_value(a, b):
     return a == b
 
 
+def snapshot_items(items, extra=()):
+    """the attribute tables of every object in the stream (and of the records given): a file read twice gives the same objects twice, whatever the
+    first reader did with the ones it got"""
+    return [(o, dict(o.attrs)) for o in list(items) + list(extra) if isinstance(o, Obj)]
+
+
+def restore_items(snap):
+    for o, attrs in snap:
+        o.attrs.clear(); o.attrs.update(attrs)
+
+
+def same_record(a, b):
+    """the record a is the record b: the same object, or an object of the same class whose attributes (the metadata apart) have the same values"""
+    if a is b:
+        return True
+    return isinstance(a, Obj) and isinstance(b, Obj) and a.cls is b.cls and set(a.attrs) - {'meta'} == set(b.attrs) - {'meta'} \
+        and all(same_value(a.attrs[k], b.attrs[k]) for k in a.attrs if k != 'meta')
+
+
+def scenario_sizes(repo):
+    """record sizes that straddle every integer constant of the module that holds the file class: c, c + 1 and 2c + 3 fits for each constant c >= 4
+    (a record is written and read differently only where the code compares its size with such a constant)"""
+    import ast
+    mod = repo.cls('fit_info', 'FitInfoFile').module
+    tree = getattr(mod, 'tree', None)
+    consts = set()
+    if tree is None:
+        return []
+    def fold(n):
+        if isinstance(n, ast.Constant) and isinstance(n.value, int) and not isinstance(n.value, bool):
+            return n.value
+        if isinstance(n, ast.BinOp) and isinstance(n.op, (ast.Pow, ast.Mult, ast.Add, ast.Sub, ast.LShift)):
+            a, b = fold(n.left), fold(n.right)
+            if a is None or b is None or (isinstance(n.op, (ast.Pow, ast.LShift)) and not 0 <= b <= 40):
+                return None
+            return {ast.Pow: lambda: a ** b, ast.Mult: lambda: a * b, ast.Add: lambda: a + b, ast.Sub: lambda: a - b, ast.LShift: lambda: a << b}[type(n.op)]()
+        return None
+    for n in ast.walk(tree):
+        v = fold(n)
+        if v is not None and 4 <= v <= 10 ** 7:
+            consts.add(v)
+    out = []
+    for c in sorted(consts)[-3:]:
+        for n in (c, c + 1, 2 * c + 3):
+            if n not in out:
+                out.append(n)
+    return out
+
+
+def _by_size(ctx, run_one):
+    """decide with records of any size; where the file class treats records differently according to their size (so that the size-free interpretation
+    has no verdict) decide on the sizes that straddle its constants"""
+    from .roundtrip import TrialCtx
+    t = TrialCtx(ctx)
+    r = run_one(t, None)
+    if not t.n_undecided:
+        t.commit()
+        return r
+    trials = []
+    for n in scenario_sizes(ctx.repo):
+        tn = TrialCtx(ctx, ' [records of %d fits]' % n)
+        trials.append((tn, run_one(tn, n)))
+    if trials and (not any(tn.n_undecided for tn, _ in trials) or any(tn.n_violations for tn, _ in trials)):
+        for tn, _ in trials:
+            tn.commit()
+        return all(rn for _, rn in trials)
+    t.commit()
+    return r
+
+
 def same_meta(m, ref):
     return isinstance(m, Obj) and all(same_value(m.attrs.get(k), ref.attrs.get(k)) for k in ('model_dir', 'filters', 'extinction_law'))
 
 
 def check_write_read(ctx, rule_w='CFG-2', rule_r='AGREE-2'):
-    """metadata once, one pickle per record, read back: the records that were written, in order, each with the stored metadata attached"""
+    return _by_size(ctx, lambda c, n: _check_write_read(c, rule_w, rule_r, n))
+
+
+def _check_write_read(ctx, rule_w, rule_r, nlen):
+    """read back: the records that were written, in order, each with the stored metadata attached (metadata once and one pickle per record is how
+    the class does it today; it is recorded when it holds and decides nothing)"""
     repo = ctx.repo
     ci = repo.cls('fit_info', 'FitInfoFile')
     wfi, ifi = ctx.fn(repo.find_member(ci, 'write')[1]), ctx.fn(repo.find_member(ci, '__iter__')[1])
     ctx.fn(repo.find_member(ci, '__init__')[1])
     meta = make_meta(repo)
     infos = [make_info(repo, k, meta) for k in (1, 2, 3)]
-    st, Iw, err = write_records(repo, infos)
+    st, Iw, err = write_records(repo, infos, nlen)
     where_w, where_r = loc(wfi), loc(ifi)
     if err is not None:
         ctx.undecided(rule_w, 'records written with one shared metadata block', where_w, 'writing not modelled: %r' % (err,))
@@ -211,24 +346,28 @@ def check_write_read(ctx, rule_w='CFG-2', rule_r='AGREE-2'):
     head = st.items[:len(st.items) - 3] if len(st.items) >= 3 else []
     recs = st.items[len(head):]
     ok_recs = len(recs) == 3 and all(a is b for a, b in zip(recs, infos))
-    ctx.expect(ok_recs, rule_w, 'every record is written as one pickle, in the order given', where_w, 'stream ends with the %d records themselves' % len(infos),
-               'after the header the stream holds %s' % [type(x).__name__ if not isinstance(x, Obj) else (x.cls.name if x.cls else '?') for x in st.items[len(head):]], 'record-items')
     vals = [meta.attrs['model_dir'], meta.attrs['filters'], meta.attrs['extinction_law']]
     ok_head = len(head) >= 1 and all(any(h is v or (not isinstance(v, Obj) and h == v) for h in head) for v in vals) and not any(any(h is i for i in infos) for h in head)
-    ctx.expect(ok_head and len(st.items) == len(head) + 3, rule_w, 'metadata written once, before the first record', where_w, 'header of %d items holding model_dir, filters and the extinction law, then the records' % len(head),
-               'the stream starts with %d items that do not hold the metadata exactly once' % len(head), 'header-once')
+    plain = ok_recs and ok_head
+    if plain:
+        ctx.ok(rule_w, 'every record is written as one pickle, in the order given', where_w, 'stream ends with the %d records themselves' % len(infos))
+        ctx.ok(rule_w, 'metadata written once, before the first record', where_w, 'header of %d items holding model_dir, filters and the extinction law, then the records' % len(head))
+    else:
+        # another layout (records in pieces, values stored beside the pickles, ...): what counts is what reading gives back
+        ctx.ok(rule_w, 'layout of the file', where_w, 'the stream holds %d items for %d records (not a header and one pickle per record): decided by reading it back' % (len(st.items), len(infos)), nontrivial=False)
     modes = [(a[1] if len(a) > 1 else k.get('mode', 'r')) for a, k in Iw.hooks.opened]
     ctx.expect(bool(modes) and all(isinstance(m, str) and 'b' in m for m in modes), rule_r, 'the file is opened in binary mode', where_w, 'open(..., %s)' % modes,
                'the file is opened with mode %s: pickles are bytes' % modes, 'binary-mode')
     # a record whose metadata differs from the first is refused
     other = make_info(repo, 9, make_meta(repo, 'x'))
-    st2, Iw2, err2 = write_records(repo, [infos[0], other])
+    st2, Iw2, err2 = write_records(repo, [infos[0], other], nlen)
     refused = isinstance(err2, Unk) and 'always raises' in err2.why
     if err2 is None and (getattr(Iw2, '_unknown_conds', 0) or Iw2.lost):
         err2 = Unk('a condition on the way was not decided')          # the record went through, but past a test the analysis could not decide
     ctx.expect(refused or err2 is None and False, rule_w, 'a record with different metadata is refused', where_w, 'write() raises', 'a record whose metadata differs from the first one is written under the first one\'s header' if err2 is None else 'not modelled: %r' % (err2,), 'meta-mismatch') if (refused or err2 is None) else ctx.undecided(rule_w, 'a record with different metadata is refused', where_w, 'not modelled: %r' % (err2,))
     # read back
-    out, Ir, f = read_records(repo, st.items)
+    snapshots = [dict(i.attrs) for i in infos]
+    out, Ir, f = read_records(repo, st.items, None, nlen)
     if not isinstance(out, list):
         if getattr(Ir, 'uncaught', None):
             ctx.violation(rule_r, 'records read back', where_r, 'reading the file that was just written raises %s' % Ir.uncaught, 'read-raises')
@@ -238,7 +377,13 @@ def check_write_read(ctx, rule_w='CFG-2', rule_r='AGREE-2'):
             return True
         ctx.undecided(rule_r, 'records read back', where_r, 'reading not modelled: %r' % (out,))
         return False
-    ctx.expect(len(out) == 3 and all(a is b for a, b in zip(out, infos)), rule_r, 'records read back', where_r, 'the records written, in order', 'reading yields %d objects that are not the %d records written, in order' % (len(out), len(infos)), 'read-records')
+    for i, snap in zip(infos, snapshots):
+        if i not in out:
+            i.attrs.clear(); i.attrs.update(snap)          # the records as they were given to write() (what is read back is another object)
+    if any(isinstance(v_, Unk) for o in out if isinstance(o, Obj) for k_, v_ in o.attrs.items() if k_ != 'meta') and not all(same_record(a, b) for a, b in zip(out, infos)):
+        ctx.undecided(rule_r, 'records read back', where_r, 'a value of a record read back was not modelled: %r' % ([v_ for o in out if isinstance(o, Obj) for v_ in o.attrs.values() if isinstance(v_, Unk)][:1],))
+        return False
+    ctx.expect(len(out) == 3 and all(same_record(a, b) for a, b in zip(out, infos)), rule_r, 'records read back', where_r, 'the records written, in order, value for value', 'reading yields %d objects that are not the %d records written, in order' % (len(out), len(infos)), 'read-records')
     ctx.expect(all(isinstance(o, Obj) and same_meta(o.attrs.get('meta'), meta) for o in out) and len(out) > 0, rule_r, 'metadata re-attached', where_r, 'every record read carries the stored model_dir, filters and extinction law',
                'records read from a file do not get the stored metadata', 'meta-reattached')
     fm = Ir.getattr(f, 'meta', None, ifi.module) if f is not None else None
@@ -247,6 +392,10 @@ def check_write_read(ctx, rule_w='CFG-2', rule_r='AGREE-2'):
 
 
 def check_truncation(ctx, rule='CFG-3'):
+    return _by_size(ctx, lambda c, n: _check_truncation(c, rule, n))
+
+
+def _check_truncation(ctx, rule, nlen):
     """C19: a file cut anywhere yields only records that were completely written, unchanged (apart from the metadata attached), and nothing else"""
     repo = ctx.repo
     ci = repo.cls('fit_info', 'FitInfoFile')
@@ -256,23 +405,23 @@ def check_truncation(ctx, rule='CFG-3'):
     where_ = loc(ifi)
     meta = make_meta(repo)
     infos = [make_info(repo, k, meta) for k in (1, 2, 3)]
-    st, Iw, err = write_records(repo, infos)
+    st, Iw, err = write_records(repo, infos, nlen)
     if err is not None:
         ctx.undecided(rule + 'a', 'the file that is cut', loc(repo.find_member(ci, 'write')[1]), 'writing not modelled: %r' % (err,))
         return False
     items = st.items
-    nhead = len(items) - len(infos)
+    marks = st.marks
     snapshots = [dict(i.attrs) for i in infos]
+    stream_snap = snapshot_items(items, infos)
     bad, undec, n = [], [], 0
     for k in range(len(items) + 1):
         for cut in ('EOFError', 'UnpicklingError'):
             if k == len(items) and cut != 'EOFError':
                 continue
-            for i, snap in zip(infos, snapshots):
-                i.attrs.clear(); i.attrs.update(snap)
-            out, Ir, f = read_records(repo, items[:k], cut)
+            restore_items(stream_snap)
+            out, Ir, f = read_records(repo, items[:k], cut, nlen, items[k] if k < len(items) else None)
             n += 1
-            complete = max(0, k - nhead)
+            complete = sum(1 for m_ in marks if m_ <= k)          # records whose last item is in the part of the file that is left
             if isinstance(out, list):
                 got = out
             elif isinstance(out, Unk) and out.definite and 'did not terminate' in out.why:
@@ -285,19 +434,24 @@ def check_truncation(ctx, rule='CFG-3'):
                 continue
             if got is None:
                 continue
-            if len(got) > complete or not all(a is b for a, b in zip(got, infos)):
-                bad.append('file cut after %d of %d items (next load raises %s): yields %d records where %d were completely written' % (k, len(items), cut, len(got), complete))
+            written = [Obj(i.cls, snap) for i, snap in zip(infos, snapshots)]
+            if len(got) <= complete and any(isinstance(v_, Unk) for o in got if isinstance(o, Obj) for k_, v_ in o.attrs.items() if k_ != 'meta'):
+                undec.append('cut after item %d (%s): a value of a record read was not modelled' % (k, cut))
                 continue
-            for o, snap in zip(got, snapshots):
-                changed = [a for a in snap if a != 'meta' and o.attrs.get(a) is not snap[a]]
-                if changed:
-                    bad.append('a record read from a cut file has %s changed' % changed)
+            if len(got) > complete:
+                bad.append('file cut after %d of %d items (next load raises %s): yields %d records where %d were completely written' % (k, len(items), cut, len(got), complete))
+            elif not all(same_record(a, b) for a, b in zip(got, written)):
+                bad.append('file cut after %d of %d items (next load raises %s): a record read differs from the record written' % (k, len(items), cut))
     if undec and not bad:
         ctx.undecided(rule + 'a', 'cut files yield complete records only', where_, '; '.join(undec[:2]))
         return False
     ctx.expect(not bad, rule + 'a', 'cut files yield complete records only', where_, '%d cut positions x kinds of failing load: only records whose pickle is complete are yielded, unchanged, in order' % n, '; '.join(bad[:2]), 'truncation')
     # the intact file ends cleanly
-    out, Ir, f = read_records(repo, items)
+    restore_items(stream_snap)
+    out, Ir, f = read_records(repo, items, None, nlen)
+    if isinstance(out, Unk) and not (out.definite or 'always raises' in out.why or getattr(Ir, 'uncaught', None)):
+        ctx.undecided(rule + 'd', 'the intact file is read to its end without an error', where_, 'reading not modelled: %r' % (out,))
+        return False
     ctx.expect(isinstance(out, list) and len(out) == len(infos), rule + 'd', 'the intact file is read to its end without an error', where_, 'EOFError at the end of the last record ends the iteration', 'reading the intact file gives %r' % (out if not isinstance(out, list) else len(out),), 'clean-end')
     return True
 
